@@ -185,6 +185,7 @@ type FakeSender struct {
 	utxos     func(addr string) ([]byte, error)
 	firstTs   func() (int64, error)
 	txs       func() ([]byte, error)
+	addTx     func(t []byte) error // what the transport does with the bytes it is handed
 }
 
 func (s *FakeSender) Target() string { return s.target }
@@ -211,6 +212,9 @@ func (s *FakeSender) SendTargets(t []string) error {
 	return nil
 }
 func (s *FakeSender) AddTransaction(t []byte) error {
+	if s.addTx != nil {
+		return s.addTx(t)
+	}
 	s.mu.Lock()
 	s.sentTx = append(s.sentTx, t)
 	s.mu.Unlock()
